@@ -114,7 +114,7 @@ func genAsc(c *Ctx, add func(caseT)) {
 	if c.Thorough() {
 		c.Note("AudioSpecificConfig.Decode on every 2-byte configuration enumerated completely")
 	}
-	n := c.Budget(3000, 40000)
+	n := c.Budget(3000, 30000)
 	for i := 0; i < n; i++ {
 		var b []byte
 		switch c.Rng.Intn(4) {
@@ -169,7 +169,7 @@ func genAsc(c *Ctx, add func(caseT)) {
 		}
 		add(caseT{line: "c15 ascdec " + Hx(b), kind: "ascdec", class: "malformed"})
 	}
-	m := c.Budget(4000, 40000)
+	m := c.Budget(4000, 30000)
 	for i := 0; i < m; i++ {
 		line, class := genAscTree(c.Rng)
 		add(caseT{line: line, kind: "ascenc", wf: true, class: class})
